@@ -42,8 +42,13 @@ def shard(args):
     hxb.write_batch(path, cases)
     res = fw.run_hx([bdir + '/hx', 'seg', path, '--seed', str(seed), '--fixed', '5', '--random', '16' if tier == 'quick' else '48',
                      '--max-single', '700', '--crash-dir', wd], timeout=7200)
+    fw.discard(path)
     res['feats'] = feats
-    res['cases'] = {c[0]: c for c in cases}
+    wanted = set()
+    for l in res['lines']:
+        if l.startswith('M '):
+            wanted.add(json.loads(l[2:])['id'])
+    res['cases'] = {c[0]: c for c in cases if c[0] in wanted}   # only what the parent needs to materialise failing refinements
     return res
 
 
@@ -53,7 +58,7 @@ def run(tier):
     wd = fw.workdir('C03')
     fw.replay_dir('C03')
     n = SIZES[tier]
-    nsh = fw.NPROC
+    nsh = fw.nshards(n, SIZES['quick'])
     results = fw.pool_map(shard, [(bdir, wd, fw.seed(), s, nsh, n, tier) for s in range(nsh)])
     v.add_crashes(results, 'C01')
     parsed = fw.parse_lines(results)
